@@ -24,6 +24,11 @@ Inductive op := OpStale | OpPresence | OpExpire | OpPing | OpPong.
 (* what the application's RefreshHandler answers to a server-side refresh *)
 Inductive rscript := RNone (* no handler *) | RExtend (d : N) | RExpired | RFail.
 
+(* what the application's SubRefreshHandler answers when the presence tick finds a subscription
+   without client-side refresh expired (checkSubscriptionExpiration): an error, Expired, a new
+   expiry [d] seconds from now, or ExpireAt 0 (no expiry any more) *)
+Inductive sscript := SFail | SExpired | SExtend (d : N) | SForever.
+
 Record cfg := mkCfg {
   g_ping : N;        (* ping interval, 0 = no pings *)
   g_pong : N;        (* pong timeout, 0 = no pong check *)
@@ -32,10 +37,17 @@ Record cfg := mkCfg {
   g_exp_delay : N;   (* ClientExpiredCloseDelay *)
   g_sub_delay : N;   (* ClientExpiredSubCloseDelay *)
   g_uni : bool;      (* unidirectional transport: no pong expected *)
-  g_refresh : rscript
+  g_refresh : rscript;
+  g_subrefresh : sscript;
+  g_pos_delay : N    (* ClientChannelPositionCheckDelay, 0 = no periodic position check *)
 }.
 
-Record sub := mkSub { sb_name : N; sb_exp : N; sb_csr : bool; sb_server : bool }.
+Record sub := mkSub {
+  sb_name : N; sb_exp : N; sb_csr : bool; sb_server : bool;
+  sb_pos : bool;      (* positioning enabled *)
+  sb_check : N;       (* positionCheckTime *)
+  sb_bad : bool       (* environment: the stream top of the broker differs from the client's position *)
+}.
 
 Record st := mkSt {
   now : N;
@@ -55,7 +67,8 @@ Inductive out :=
 | OClose (code : N)
 | OUnsub (ch code : N)        (* unsubscribe push *)
 | OReply (err : N)            (* reply to a refresh / sub refresh command *)
-| ORefreshPush.               (* refresh push of Client.Refresh *)
+| ORefreshPush                (* refresh push of Client.Refresh *)
+| OAsk (ch : N).              (* the SubRefreshHandler was asked about an expired subscription *)
 
 Definition init (g : cfg) : st :=
   mkSt 0 false false false 0 0 0 0
@@ -134,18 +147,72 @@ Definition expire (g : cfg) (s : st) : st * list out :=
 Definition sub_expired (g : cfg) (s : st) (b : sub) : bool :=
   (0 <? sb_exp b) && (sb_exp b + g_sub_delay g <? now s).
 
+(* the subscription is given to the SubRefreshHandler, which extends it: the new expireAt *)
+Definition sub_refreshed (g : cfg) (s : st) (b : sub) : option N :=
+  if sb_csr b then None else     (* only a sub refresh command of the client can extend it *)
+  match g_subrefresh g with
+  | SExtend d => Some (now s + d)
+  | SForever => Some 0
+  | SFail | SExpired => None
+  end.
+
+Definition set_sub_exp (l : list sub) (n e : N) : list sub :=
+  map (fun x => if sb_name x =? n
+                then mkSub n e (sb_csr x) (sb_server x) (sb_pos x) (sb_check x) (sb_bad x) else x) l.
+
+(* the handler is asked about every expired subscription without client-side refresh *)
+Definition sub_ask (b : sub) : list out := if sb_csr b then [] else [OAsk (sb_name b)].
+
 Fixpoint tick_subs (g : cfg) (s : st) (l : list sub) : st * list out :=
   match l with
   | [] => (s, [])
   | b :: r =>
       if closed s then (s, []) else
       if sub_expired g s b then
-        if sb_server b then close s 3006
-        else
-          let s1 := set_subs s (filter (fun x => negb (sb_name x =? sb_name b)) (subs s)) in
-          let '(s2, o2) := tick_subs g s1 r in (s2, OUnsub (sb_name b) 2501 :: o2)
+        match sub_refreshed g s b with
+        | Some e =>
+            let '(s2, o2) := tick_subs g (set_subs s (set_sub_exp (subs s) (sb_name b) e)) r in
+            (s2, sub_ask b ++ o2)
+        | None =>
+            if sb_server b then let '(s2, o2) := close s 3006 in (s2, sub_ask b ++ o2)
+            else
+              let s1 := set_subs s (filter (fun x => negb (sb_name x =? sb_name b)) (subs s)) in
+              let '(s2, o2) := tick_subs g s1 r in (s2, sub_ask b ++ OUnsub (sb_name b) 2501 :: o2)
+        end
       else tick_subs g s r
   end.
+
+(* periodic position check (checkPosition): due when more than the delay passed since the last one *)
+Definition pos_due (g : cfg) (s : st) (b : sub) : bool :=
+  (0 <? g_pos_delay g) && sb_pos b && (g_pos_delay g <? now s - sb_check b).
+Definition pos_invalid (g : cfg) (s : st) (b : sub) : bool := pos_due g s b && sb_bad b.
+(* a valid position is stamped with the time of the check *)
+Definition stamp (g : cfg) (s : st) (l : list sub) : list sub :=
+  map (fun b => if pos_due g s b && negb (sb_bad b)
+                then mkSub (sb_name b) (sb_exp b) (sb_csr b) (sb_server b) (sb_pos b) (now s) (sb_bad b)
+                else b) l.
+
+(* insufficient state found by the tick: unsubscribe 2500, a server-side subscription closes 3010 *)
+Fixpoint tick_pos (s : st) (l : list sub) : st * list out :=
+  match l with
+  | [] => (s, [])
+  | b :: r =>
+      if closed s then (s, []) else
+      if sb_server b then close s 3010
+      else
+        let s1 := set_subs s (filter (fun x => negb (sb_name x =? sb_name b)) (subs s)) in
+        let '(s2, o2) := tick_pos s1 r in (s2, OUnsub (sb_name b) 2500 :: o2)
+  end.
+
+(* the channel part of updatePresence: position checks first (results kept), then per channel the
+   expiry check and the consequence of an invalid position.  A subscription that is both expired
+   and at an invalid position is not generated (two unsubscribe goroutines would race). *)
+Definition tick (g : cfg) (s : st) : st * list out :=
+  let bad := filter (pos_invalid g s) (subs s) in
+  let s0 := set_subs s (stamp g s (subs s)) in
+  let '(s1, o1) := tick_subs g s0 (subs s0) in
+  let '(s2, o2) := tick_pos s1 (filter (fun b => existsb (fun x => sb_name x =? sb_name b) (subs s1)) bad) in
+  (s2, o1 ++ o2).
 
 (* the armed timer fires *)
 Definition run_op (g : cfg) (s : st) (o : op) : st * list out :=
@@ -153,7 +220,7 @@ Definition run_op (g : cfg) (s : st) (o : op) : st * list out :=
   | OpStale => if negb (auth s) || unusable s then close s 3502 else (s, [])
   | OpPresence =>
       let s1 := schedule (set_times s (nExpire s) (now s + g_presence g) (nPing s) (nPong s)) in
-      if unusable s then close s1 3502 else tick_subs g s1 (subs s1)
+      if unusable s then close s1 3502 else tick g s1
   | OpExpire => expire g s
   | OpPing =>
       let s1 := set_ping s (seq s + 1) false (lastSeen s) in
@@ -212,12 +279,18 @@ Definition sub_refresh_cmd (s : st) (n e : N) : st * list out :=
   | Some b =>
       if negb (sb_csr b) then close s 3501 else
       if (0 <? e) && (e <? now s) then (s, [OReply 110])
-      else (set_subs s (map (fun x => if sb_name x =? n then mkSub n e (sb_csr x) (sb_server x) else x) (subs s)),
-            [OReply 0])
+      else (set_subs s (set_sub_exp (subs s) n e), [OReply 0])
   end.
 
+(* subscribing stamps the position check time *)
 Definition add_sub (s : st) (b : sub) : st :=
-  if closed s then s else set_subs s (subs s ++ [b]).
+  if closed s then s
+  else set_subs s (subs s ++ [mkSub (sb_name b) (sb_exp b) (sb_csr b) (sb_server b) (sb_pos b) (now s) (sb_bad b)]).
+
+(* environment: the stream of channel [n] moves on without the client (or catches up again) *)
+Definition set_stream (s : st) (n : N) (bad : bool) : st :=
+  set_subs s (map (fun x => if sb_name x =? n
+                            then mkSub n (sb_exp x) (sb_csr x) (sb_server x) (sb_pos x) (sb_check x) bad else x) (subs s)).
 
 Definition advance (s : st) (d : N) : st :=
   mkSt (now s + d) (closed s) (auth s) (unusable s) (nExpire s) (nPresence s) (nPing s) (nPong s) (armed s)
@@ -231,7 +304,8 @@ Inductive label :=
 | LPong
 | LRefreshCmd (e : N)
 | LSrvRefresh (expired : bool) (e : N)
-| LSubRefreshCmd (n e : N).
+| LSubRefreshCmd (n e : N)
+| LStream (n : N) (bad : bool).
 
 Section Step.
   Variable srv : cfg -> st -> bool -> N -> st * list out.
@@ -247,6 +321,7 @@ Section Step.
     | LPong => Some (pong_cmd s)
     | LRefreshCmd e => Some (if auth s then refresh_cmd g s e else close s 3501)
     | LSubRefreshCmd n e => Some (if auth s then sub_refresh_cmd s n e else close s 3501)
+    | LStream n bad => Some (set_stream s n bad, [])
     end.
 
   Fixpoint exec_gen (g : cfg) (s : st) (ls : list label) : option (st * list (list out)) :=
